@@ -35,13 +35,18 @@ JOBS = [
     # C09: compressor: every write inside dst, result <= bound, bound-sized buffer always enough
     dict(name='c09_lz4_compress', props=['C09', 'C10'], entry='h_lz4_compress', enforce='carquet_lz4_compress',
          replace=['lz4_count', 'carquet_lz4_compress_bound'], unwindset=UW, min_loop_obligations=4, est_s=300,
-         timeout=900, mem_gb=14, replayer=FZ_C, wip=True, **L9),
+         timeout=900, mem_gb=14, replayer=FZ_C, wip=True, tier='thorough',
+         note='UNDECIDED (resources): contract, 4 loop invariants (division-free size invariant 255*(o-a) <= a) and the C10 '
+              'end-of-block assertions are written; a single selected obligation closes in 90 s / 1.2 GB, the full set '
+              '(907 obligations) did not finish in 800 s / 7 GB (minisat, also with --stop-on-fail) and needs > 19 GB with '
+              'cadical on the shared machine. No counterexample seen; libFuzzer replay/fz/lz4_compress.c ran 4.3M inputs clean.',
+         **L9),
     # C10 decoder direction, bounded by complete unwinding on small blocks (no loop contracts applied)
     dict(name='c10_lz4_decoder_accepts_valid', prop='C10', entry='h_lz4_decompress_accepts_every_valid',
          loop_contracts=False, unwind=9, defines=['CQV_N=4', 'CQV_CAP=8'], level='bounded',
          bound='compressed block <= 4 bytes (all byte values; only literal-only blocks are valid at this size), destination capacity 8',
          functions=['carquet_lz4_decompress'], trusted=['specs/lz4_spec.h: block validity read from the LZ4 block format document'],
-         timeout=900, wip=True, **L10),
+         timeout=900, est_s=100, wip=False, **L10),
     dict(name='c10_lz4_decoder_rejects_invalid', prop='C10', entry='h_lz4_decompress_accepts_only_valid',
          loop_contracts=False, unwind=9, defines=['CQV_N=4', 'CQV_CAP=8'], level='bounded',
          bound='compressed block <= 4 bytes (all byte values), destination capacity 8',
